@@ -49,6 +49,15 @@ open Lungo.C11
 #print axioms Lungo.C11.conflict_rejected
 #print axioms Lungo.C11.accepted_conflict_free
 #print axioms Lungo.C11.accepted_paths_pairwise
+#print axioms Lungo.C11.selected_iff
+#print axioms Lungo.C11.selectedIdx_mem
+#print axioms Lungo.C11.selectedIdx_ascending
+#print axioms Lungo.C11.array_filter_own
+#print axioms Lungo.C11.array_filter_own_rec
+#print axioms Lungo.C11.unbound_identifier_rejected
+#print axioms Lungo.C11.foreign_filter_irrelevant
+#print axioms Lungo.C11.foreign_filter_irrelevant_insert
+#print axioms Lungo.C11.foreign_filter_irrelevant_step
 #print axioms Lungo.C11.record_conflict_free
 #print axioms Lungo.C11.changes_hold_partial
 #print axioms Lungo.C11.pop_change_holds
